@@ -1,0 +1,21 @@
+//go:build verif
+
+// Verification hook of the total work package (build tag `verif` only; add-only file).
+package floatingip
+
+import (
+	"net"
+
+	"tkestack.io/galaxy/pkg/utils/nets"
+)
+
+// VerifLsWalkCount runs walkIPRanges over the ranges with a callback that never stops the walk and returns
+// the number of addresses visited; `limit` > 0 stops the walk (callback returns true) after that many.
+func VerifLsWalkCount(ranges []nets.IPRange, limit uint64) uint64 {
+	var n uint64
+	walkIPRanges(ranges, func(ip net.IP) bool {
+		n++
+		return limit > 0 && n >= limit
+	})
+	return n
+}
